@@ -18,10 +18,16 @@ MCTreesAll == {T1, T2, T3, T4, T5, T6, T7, T8}
 MCTreesQuick == {T1, T2, T3, T4, T5}
 CONSTANT MCTrees
 
+\* every stage has a plan of one node (named like the stage); plan TREES are the subject of MCPipelineTree
+OnePlan(ch, oc) == [kids |-> [s \in DOMAIN ch |-> << >>],
+                    out  |-> [s \in DOMAIN ch |-> IF oc[s] = "planpanic" THEN "ok" ELSE oc[s]],
+                    root |-> [s \in DOMAIN ch |-> s]]
+
 MCInit == \E ch \in MCTrees :
             \E as \in [DOMAIN ch -> BOOLEAN] :
               \E oc \in [DOMAIN ch -> {"ok", "err", "panic", "planpanic"}] :
-                InitWith(ch, "r", as, oc)
+                InitWith(ch, "r", as, [s \in DOMAIN ch |-> IF oc[s] = "planpanic" THEN "planpanic" ELSE "tree"],
+                         OnePlan(ch, oc))
 
 MCSpec == MCInit /\ [][Next]_vars /\ WF_vars(Next)
 =============================================================================
